@@ -13,6 +13,7 @@ import KiraModel.Exec.SuiteSpatial
 import KiraModel.Exec.SuiteWav
 import KiraModel.Exec.SuiteStatic
 import KiraModel.Exec.SuiteMixer
+import KiraModel.Exec.SuiteFxA
 
 open K.Exec K.Exec.Clock K.Exec.Wav
 
@@ -43,6 +44,7 @@ def suiteOf (name : String) : Option Suite :=
   | "psm" => some { σ := Static.PsmSuiteState, init := {}, step := Static.psmStep }
   | "static" | "static_ood" => some { σ := Static.StaticSuiteState, init := {}, step := Static.staticStep }
   | "mixer" | "mixtrk" | "mixpart" => some { σ := MixState, init := {}, step := mixStep }
+  | "fxa" => some { σ := FxAState, init := {}, step := fxaStep }
   | _ => none
 
 def tokens (line : String) : List String :=
